@@ -26,6 +26,10 @@ SIGS = [
     ('import.sixteen', r'#\[link_name = "sixteen"\]\s*fn \w+\(([^)]*)\)\s*->\s*([^;]+);', '_: i32, ' * 16, 'i32'),
     ('import.seventeen', r'#\[link_name = "seventeen"\]\s*fn \w+\(([^)]*)\)\s*->\s*([^;]+);', '_: *mut u8, ', 'i32'),
     ('import.pair', r'#\[link_name = "pair"\]\s*fn \w+\(([^)]*)\)()\s*;', '_: i32, _: *mut u8, ', ''),
+    # async exports report their result through task.return, whose core signature is the flattened RESULT limited by the
+    # same 16-value rule as parameters (5 values: flat; 17 values: one pointer)
+    ('task_return.five', r'#\[link_name = "\[task-return\]five"\]\s*fn \w+\(([^)]*)\)()\s*;', '_: i32, ' * 5, ''),
+    ('task_return.wide', r'#\[link_name = "\[task-return\]wide"\]\s*fn \w+\(([^)]*)\)()\s*;', '_: *mut u8, ', ''),
 ]
 
 
@@ -35,7 +39,7 @@ def norm(s):
 
 def run(rep, tier):
     rep.assume('PARTIAL and BOUNDED: the shared call glue (Generator::call) is exercised through ONE backend (Rust) and ONE probe world; the other backends '
-               'and async functions (MAX_FLAT_ASYNC_PARAMS, task.return) are not covered',
+               'and, of the async ABI variants, only the task.return core signatures of two async exports (5 and 17 result values) are covered',
                'the core signatures expected of the generated functions are written by hand from CanonicalABI.md (flatten_functype: at most 16 flat '
                'parameters else one pointer; at most 1 flat result else a return pointer / return area)',
                'the host is the harness: mock imports (rule R1) read the parameter record / write the return area at the canonical offsets by hand',
